@@ -23,7 +23,9 @@ import (
 
 	"verif/lib/drv"
 	"verif/lib/hook"
+	"verif/lib/ref"
 	"verif/lib/rep"
+	vstore "verif/lib/store"
 )
 
 type In struct {
@@ -402,9 +404,124 @@ func crossRead(h []rec) bool {
 	return false
 }
 
+// clearVsWrites: Clear is a request like any other: while writers add facts and a
+// clearer clears the location (on a storage whose Clear is slow), every write is either
+// before or after each clear.  Oracle: at the end the live location and a location
+// reloaded from storage hold the same items, writes acknowledged after the last clear
+// returned are there, writes acknowledged before the last clear was called are gone.
+func clearVsWrites(r *rep.Report, e rep.Env) {
+	rounds := e.Pick(24, 160)
+	for round := 0; round < rounds; round++ {
+		kind := drv.Kinds[round%2]
+		inner := drv.MustMem()
+		w := vstore.New(inner)
+		w.Slow = map[string]time.Duration{"Clear": time.Duration(500+250*(round%5)) * time.Microsecond}
+		loc, err := drv.NewLoc("K", kind, w)
+		if err != nil {
+			r.Violate("", "cannot build location", nil)
+			return
+		}
+		r.Journal(rep.J{"clear_vs_writes": round, "state": kind})
+		type wr struct {
+			Id        string `json:"id"`
+			Call, Ret int64
+			Err       string `json:"err,omitempty"`
+		}
+		var mu sync.Mutex
+		var writes []wr
+		var clears [][2]int64
+		start := time.Now()
+		var wg sync.WaitGroup
+		gate := make(chan bool)
+		for c := 0; c < 4; c++ {
+			wg.Add(1)
+			go func(c int) {
+				defer wg.Done()
+				<-gate
+				for i := 0; i < 12; i++ {
+					id := fmt.Sprintf("w%d-%d", c, i)
+					call := time.Since(start).Nanoseconds()
+					var err error
+					if i%4 == 3 {
+						_, err = loc.AddRule(drv.Ctx(), id, core.Map{"when": map[string]interface{}{"pattern": map[string]interface{}{"e": id}}, "action": map[string]interface{}{"code": "1"}})
+					} else {
+						_, err = loc.AddFact(drv.Ctx(), id, core.Map{"by": fmt.Sprint(c), "n": float64(i)})
+					}
+					ret := time.Since(start).Nanoseconds()
+					mu.Lock()
+					writes = append(writes, wr{id, call, ret, drv.ErrStr(err)})
+					mu.Unlock()
+					time.Sleep(time.Duration(50*(1+(c+i)%4)) * time.Microsecond)
+				}
+			}(c)
+		}
+		wg.Add(1)
+		go func() {
+			defer wg.Done()
+			<-gate
+			for i := 0; i < 3; i++ {
+				time.Sleep(400 * time.Microsecond)
+				call := time.Since(start).Nanoseconds()
+				err := loc.Clear(drv.Ctx())
+				ret := time.Since(start).Nanoseconds()
+				if err != nil {
+					r.Violate("", "Clear failed: "+err.Error(), nil)
+				}
+				mu.Lock()
+				clears = append(clears, [2]int64{call, ret})
+				mu.Unlock()
+			}
+		}()
+		done := make(chan struct{})
+		go func() { close(gate); wg.Wait(); close(done) }()
+		select {
+		case <-done:
+		case <-time.After(60 * time.Second):
+			r.Violate("", "writers and clearer did not finish within 60 s (deadlock?)", rep.J{"state": kind})
+			return
+		}
+		loc2, err := drv.NewLoc("K", kind, vstore.MemFrom(vstore.CopyState(inner.State(drv.Ctx()))))
+		if err != nil {
+			r.Violate("", "reload failed: "+err.Error(), rep.J{"state": kind})
+			continue
+		}
+		lastClear := clears[len(clears)-1]
+		overlapped := 0
+		for _, x := range writes {
+			live, errL := loc.GetFact(drv.Ctx(), x.Id)
+			re, errR := loc2.GetFact(drv.Ctx(), x.Id)
+			inLive, inRe := errL == nil, errR == nil
+			for _, c := range clears {
+				if x.Call < c[1] && c[0] < x.Ret {
+					overlapped++
+				}
+			}
+			r.Case(true, fmt.Sprint("clearvs", e.BatchSeed(), round, x.Id))
+			wit := rep.J{"state": kind, "write": x, "clears": clears, "in_live": inLive, "in_reloaded": inRe, "slow_clear_us": w.Slow["Clear"].Microseconds()}
+			if x.Err != "" {
+				r.Violate("", "a write failed while the location was being cleared: "+x.Err, wit)
+				continue
+			}
+			if inLive != inRe || (inLive && ref.Canon(map[string]interface{}(live)) != ref.Canon(map[string]interface{}(re))) {
+				r.Violate("", "after concurrent writes and clears the live location and the location reloaded from storage differ", wit)
+				continue
+			}
+			if x.Call > lastClear[1] && !inLive {
+				r.Violate("", "a write acknowledged after the last Clear had returned is gone", wit)
+			}
+			if x.Ret < lastClear[0] && inLive {
+				r.Violate("", "a write acknowledged before the last Clear was called survived it", wit)
+			}
+		}
+		r.Count("clear_vs_write_rounds", 1)
+		r.Count("writes_overlapping_a_clear", overlapped)
+	}
+}
+
 func main() {
 	e := rep.GetEnv()
 	r := rep.New(e)
+	clearVsWrites(r, e)
 	nHist := e.Pick(240, 1500)
 	rng := rand.New(rand.NewSource(e.BatchSeed()))
 	families := []string{"facts", "rules", "rules+enable", "mixed"}
